@@ -110,14 +110,14 @@ func (p *Parser) ParseFile(filename string, varPool *VarPool) (*MetaData, []*Bui
 								continue
 							}
 
-							_ = varPool.GetName(name.Name)
+							varPool.Reserve(name.Name)
 						}
 					case *ast.TypeSpec:
 						if spec.Name == nil {
 							continue
 						}
 
-						_ = varPool.GetName(spec.Name.Name)
+						varPool.Reserve(spec.Name.Name)
 					}
 				}
 			case *ast.FuncDecl:
@@ -125,7 +125,7 @@ func (p *Parser) ParseFile(filename string, varPool *VarPool) (*MetaData, []*Bui
 					continue
 				}
 
-				_ = varPool.GetName(decl.Name.Name)
+				varPool.Reserve(decl.Name.Name)
 			}
 		}
 	}
@@ -171,6 +171,12 @@ func (p *Parser) ParseFile(filename string, varPool *VarPool) (*MetaData, []*Bui
 	builds, err := p.findInjectDirectives(targetFile, pkg, kessokuPackageScope, metaData.Imports, astFile.Imports, varPool)
 	if err != nil {
 		return nil, nil, fmt.Errorf("find inject directives: %w", err)
+	}
+
+	// The injectors about to be generated become package-level functions; a
+	// later run finds them in the previous output file, so reserve them now.
+	for _, build := range builds {
+		varPool.Reserve(build.InjectorName)
 	}
 
 	return metaData, builds, nil
